@@ -42,13 +42,18 @@ def location_record(lat, lon, alt, ell=(0, 0, 0), radius=0, rel_dist=1, rel_dir=
 # C12: the store
 # ----------------------------------------------------------------------------------------------------------------
 class Rec:
-    __slots__ = ("oid", "app", "ts", "loc", "locname", "content", "validity", "added", "inside", "deleted", "swept")
+    __slots__ = ("oid", "app", "ts", "loc", "locname", "content", "validity", "added", "inside", "deleted", "swept", "cache")
 
     def __init__(self, oid, app, ts, loc, locname, content, validity, added, inside):
         self.oid, self.app, self.ts, self.loc, self.locname = oid, app, ts, loc, locname
         self.content, self.validity, self.added, self.inside = content, validity, added, inside
+        self.cache = {}          # derived keys of the current content (cleared by set_content)
         self.deleted = False     # a delete of this id was acknowledged
         self.swept = False       # an explicit maintenance ran strictly past the expiry (at clock resolution)
+
+    def set_content(self, content):
+        self.content = content
+        self.cache = {}
 
     @property
     def expiry(self):            # validity lapses at added + validity (whole seconds, both)
@@ -120,8 +125,9 @@ class RefStore:
             if r.must_absent():
                 out.append((oid, "gone"))
             else:
-                out.append((oid, r.app, r.locname, r.validity, r.expiry - clock(now), r.ts - r.added * 1000, repr(sorted(r.content.get("header", {}).items())),
-                            _digest(r.content)))
+                if "digest" not in r.cache:
+                    r.cache["digest"] = _digest(r.content)
+                out.append((oid, r.app, r.locname, r.validity, r.expiry - clock(now), r.ts - r.added * 1000, r.cache["digest"]))
         return (tuple(sorted(self.providers)), tuple(sorted(self.consumers)), tuple(out))
 
 
